@@ -10,7 +10,7 @@ Proof.
   intro I.
   assert (E : forall j, (j < next g)%positive -> rn (new_rock g n) j = rn g j).
   { intros j H. rewrite rn_new_rock. destruct (Pos.eqb_spec j (next g)); [lia|reflexivity]. }
-  constructor; gs; try apply I.
+  constructor; try apply I; gs.
   - apply DL_ext with (name := rn g); [|apply I]. intros j H. apply E. apply (i_rfresh g I). exact H.
   - intros i H. fold (rn (new_rock g n) (br g i)). rewrite E; [apply (i_rock g I); exact H|apply (i_brfresh g I); exact H].
   - intros i H. apply (i_brfresh g I) in H. lia.
@@ -26,12 +26,12 @@ Proof.
   intros I Hj Hlt H. unfold add_rocktype_obj, rget in H.
   destruct (aget str_eqb (rdict g) (rn g j)) as [old|] eqn:E.
   - destruct (mem old (rlist g)); [|discriminate]. inversion H; subst g'; clear H.
-    constructor; gs; try apply I.
+    constructor; try apply I; gs.
     + apply (DL_add_replace str_eqb str_spec); auto. apply I.
     + intros i Hi. apply (in_keys_aset str_eqb str_spec). right. apply (i_rock g I). exact Hi.
     + intros x Hx. apply lreplace_incl in Hx. destruct Hx as [->|Hx]; [exact Hlt|apply I; exact Hx].
   - inversion H; subst g'; clear H.
-    constructor; gs; try apply I.
+    constructor; try apply I; gs.
     + apply (DL_add_new str_eqb str_spec); auto. apply I.
     + intros i Hi. apply (in_keys_aset str_eqb str_spec). right. apply (i_rock g I). exact Hi.
     + intros x Hx. rewrite in_app_iff in Hx. cbn in Hx. destruct Hx as [Hx|[<-|[]]]; [apply I; exact Hx|exact Hlt].
@@ -53,7 +53,7 @@ Proof.
   intros I U H. unfold delete_rocktype, rget in H.
   destruct (aget str_eqb (rdict g) n) as [j|] eqn:E; [|inversion H; subst; exact I].
   destruct (mem j (rlist g)); [|discriminate]. inversion H; subst g'; clear H.
-  constructor; gs; try apply I.
+  constructor; try apply I; gs.
   - apply (DL_del str_eqb str_spec); [apply I|exact E].
   - intros i Hi. apply (in_keys_adel str_eqb str_spec); [apply I|]. split; [apply U; exact Hi|apply (i_rock g I); exact Hi].
   - intros x Hx. apply lremove_incl in Hx. apply I. exact Hx.
@@ -88,7 +88,7 @@ Qed.
 (** [clean_rocktypes()]: no precondition *)
 Theorem clean_rocktypes_inv g g' : Inv g -> clean_rocktypes g = Ok g' -> Inv g'.
 Proof.
-  intros I H. unfold clean_rocktypes in H. apply (delete_rocktypes_inv _ g g' I); [|exact H].
+  intros I H. unfold clean_rocktypes in H. eapply delete_rocktypes_inv; [exact I| |exact H].
   intros n Hn. apply in_map_iff in Hn. destruct Hn as [j [<- Hj]]. apply filter_In in Hj. destruct Hj as [_ Hj].
   apply rock_unused_spec. exact Hj.
 Qed.
@@ -104,7 +104,7 @@ Proof.
   inversion H; subst g'; clear H. unfold rget in *.
   assert (Hb : ~ In b (map fst (adel str_eqb (rdict g) a))).
   { intro X. apply keys_adel_incl in X. apply (aget_None_notin str_eqb str_spec) in Eb. contradiction. }
-  constructor; gs; try apply I.
+  constructor; try apply I; gs.
   - apply (DL_rename str_eqb str_spec (rn g)); auto; [apply I|apply fget_fset_eq|].
     intros i Ni. unfold rn. apply fget_fset_neq. exact Ni.
   - intros i Hi. apply (in_keys_aset str_eqb str_spec). rewrite fget_fset.
